@@ -604,6 +604,35 @@ func runC18(seed int64, n int, dir string, tier string) *Report {
 		rep.writerHistory(g, cf, dir)
 		rep.readerHistory(g, cf, dir)
 	}
+	// option sets built by hand (struct literals) are values of their own too: driver options set on one are
+	// seen neither through another nor through instances constructed afterwards
+	{
+		rep.OracleEvals++
+		wo1, wo2 := &writer.Options{}, &writer.Options{}
+		ro1, ro2 := &reader.Options{}, &reader.Options{}
+		wo1.SetFormatOptions("driver", "of-call-1")
+		ro1.SetFormatOptions("driver", "of-call-1")
+		wo2.SetFormatOptions("other-driver", 7)
+		ro2.SetFormatOptions("other-driver", 7)
+		leaks := []string{}
+		for _, c := range []struct {
+			what string
+			got  any
+		}{{"writer options 2 / driver", wo2.GetFormatOptions("driver")}, {"reader options 2 / driver", ro2.GetFormatOptions("driver")},
+			{"writer options 1 / other-driver", wo1.GetFormatOptions("other-driver")}, {"reader options 1 / other-driver", ro1.GetFormatOptions("other-driver")},
+			{"new writer / driver", writer.New().Options.GetFormatOptions("driver")}, {"new reader / driver", reader.New().Options.GetFormatOptions("driver")},
+			{"new hand-built writer options / driver", (&writer.Options{}).GetFormatOptions("driver")}, {"new hand-built reader options / driver", (&reader.Options{}).GetFormatOptions("driver")}} {
+			if c.got != nil {
+				leaks = append(leaks, fmt.Sprintf("%s = %v", c.what, c.got))
+			}
+		}
+		if wo1.GetFormatOptions("driver") != "of-call-1" || ro1.GetFormatOptions("driver") != "of-call-1" {
+			leaks = append(leaks, "an option set does not return the driver options that were set on it")
+		}
+		if len(leaks) > 0 {
+			rep.Fail(Failure{What: "driver options set on one hand-built option set are visible through another option set or instance", Detail: strings.Join(leaks, "; "), Input: map[string]any{"set_on_1": "driver=of-call-1", "set_on_2": "other-driver=7"}})
+		}
+	}
 	// the storage backend an instance gets by default is its own: configuring one instance's backend in
 	// place (the only way a default file-system backend can be configured) leaves every other instance alone
 	{
